@@ -99,15 +99,16 @@ def make_grid(rng, pts, kind):
     if kind == 'dyadic':
         s = set([0.0, 1.0])
         while len(s) < pts:
-            s.add(rng.randrange(1, 32) / 32.)
+            s.add(rng.randrange(1, 32) / 32. if pts <= 12 else rng.randrange(1, 256) / 256.)
         return numpy.array(sorted(s))
     if kind == 'default':
         unif = numpy.linspace(-1, 1, pts)
         g = 1. / (1. + numpy.exp(-8.0 * unif))
         return (g - g[0]) / (g[-1] - g[0])
+    hmin = min(1e-2, 0.1 / pts)
     while True:
         xs = sorted([0.0, 1.0] + [rng.uniform(0.01, 0.99) for _ in range(pts - 2)])
-        if min(b - a for a, b in zip(xs, xs[1:])) > 1e-2:
+        if min(b - a for a, b in zip(xs, xs[1:])) > hmin:
             return numpy.array(xs)
 
 
@@ -156,13 +157,24 @@ def simplex_point(rng, k, kind):
         f = [rng.uniform(0, 1. / k) for _ in range(k)]
         f[rng.randrange(k)] = 0.0
         return f
+    if kind == 'roundoff' and k >= 2:   # the mixture at the all-ones corner evaluates to 1+ulp in floating point
+        for _ in range(2000):
+            f = [rng.random() / k for _ in range(k)]
+            c = 1.0
+            for v in f:
+                c = c - v
+            tot = 0.0
+            for v in f:
+                tot = tot + v
+            if tot + c > 1.0:
+                return f
     while True:
         f = [rng.random() for _ in range(k)]
         if sum(f) < 0.999:
             return f
 
 
-F_KINDS = ['zero', 'vertex', 'dyadic', 'face', 'partial', 'random']
+F_KINDS = ['zero', 'vertex', 'dyadic', 'face', 'partial', 'random', 'roundoff']
 
 
 def _lst(a):
@@ -172,7 +184,7 @@ def _lst(a):
 
 def _info(phi, grids, **kw):
     i = dict(grids=[_lst(g) for g in grids])
-    if phi.size <= 81:
+    if phi.size <= 36:
         i['phi'] = _lst(phi)
     else:
         i['phi_shape'] = list(phi.shape)
@@ -194,7 +206,8 @@ def _hmin(g):
 
 
 def val_tol(ref, dest_grid):
-    """A 1-ulp difference in the mixture frequency moves a fraction by ulp/h: 64 eps max|ref| / h_min."""
+    """A 1-ulp difference in the mixture frequency moves a fraction by ulp/h, and the mixture is a sum of up to five rounded
+    products: 64 eps max|ref| / h_min (observed worst ~30 eps max/h_min on strongly non-uniform grids)."""
     import numpy
     return 64 * EPS * float(numpy.max(numpy.abs(ref))) / _hmin(dest_grid) + 1e-300
 
@@ -206,7 +219,7 @@ def val_tol(ref, dest_grid):
 def drv_split1d(tier):
     import numpy
     from dadi import PhiManip
-    nc = 60 if tier == 'quick' else 1500
+    nc = 200 if tier == 'quick' else 3000
     d = Driver('C06', 'split1d', bound='phi_1D_to_2D: %d random 1-D densities (positive, signed, spike, boundary-heavy) on grids of 3..40 points (uniform, dyadic, '
                'dadi-like, random): off-diagonal zero, marginal over either population equals the parent at every interior node at 8 eps relative '
                '(copy of the parent), and at the two end nodes (separate fail_key); input not modified' % nc)
@@ -271,10 +284,10 @@ def _check_new_axis(d, key, got, phi, ad, zz, info, fk):
 def drv_construct(tier):
     import numpy
     from dadi import PhiManip
-    nc = 90 if tier == 'quick' else 2400
+    nc = 420 if tier == 'quick' else 12000
     d = Driver('C06', 'construct', bound='phi_2D_to_3D_split_1/_split_2/_admix, phi_3D_to_4D, phi_4D_to_5D: %d random cases; every axis on its own grid (3..9 / 3..6 / 3..5 points; '
                'uniform-dyadic, dyadic, dadi-like, random), proportions 0, vertices (1), multiples of 1/8 (mixtures landing exactly on nodes), faces (sum=1), '
-               'partial zeros, random interior; full array vs deposition-law oracle at 64 eps max/h_min; marginal over the new population equals the input at 16 eps relative '
+               'partial zeros, random interior, vectors whose mixture at the all-ones corner rounds to 1+ulp; full array vs deposition-law oracle at 64 eps max/h_min; marginal over the new population equals the input at 16 eps relative '
                'elementwise; support = two adjacent bracketing nodes; value-weighted mean = mixture frequency; pure split = copy of the parent; input not modified' % nc)
     rng, nprng = d.rng, d.nprng()
     for ci in range(nc):
@@ -360,7 +373,7 @@ def _pulse_coefs(name, fs):
     return coefs
 
 
-def _one_pulse(d, PhiManip, name, phi, fs, grids, key, info, fk_value, fk_cons, fk_exc, check_identity=True):
+def _one_pulse(d, PhiManip, name, phi, fs, grids, key, info, fk_value, fk_cons, fk_exc, fk_ident='pulse-not-identity-at-0'):
     import numpy
     D, dest, srcs = PULSES[name]
     coefs = _pulse_coefs(name, fs)
@@ -368,7 +381,9 @@ def _one_pulse(d, PhiManip, name, phi, fs, grids, key, info, fk_value, fk_cons, 
     try:
         got = getattr(PhiManip, name)(work, *(list(fs) + list(grids)))
     except Exception as e:
-        d.case(key, False, dict(info, exception=repr(e)[:300]), fail_key=fk_exc)
+        from fractions import Fraction as Fr
+        rejected_valid = isinstance(e, ValueError) and 'non-sensible' in str(e) and sum(Fr(f) for f in fs) <= 1 and min(fs) >= 0
+        d.case(key, False, dict(info, exception=repr(e)[:300]), fail_key='valid-simplex-vector-rejected' if rejected_valid else fk_exc)
         return None
     got = numpy.asarray(got)
     want = ref_pulse(phi, coefs, grids, dest - 1)
@@ -383,9 +398,9 @@ def _one_pulse(d, PhiManip, name, phi, fs, grids, key, info, fk_value, fk_cons, 
     scale = marginal(numpy.abs(phi), grids[dest - 1], dest - 1)
     ec = numpy.abs(m1 - m0)
     d.case(key + ('conserve',), bool(numpy.all(ec <= 32 * EPS * scale)), dict(info, maxerr=float(ec.max()) if ec.size else 0.0), fail_key=fk_cons)
-    if check_identity and all(f == 0 for f in fs):
+    if all(f == 0 for f in fs):
         ei = _err(got, phi)
-        d.case(key + ('identity',), ei <= 16 * EPS * float(numpy.max(numpy.abs(phi))), dict(info, err=ei), fail_key='pulse-not-identity-at-0')
+        d.case(key + ('identity',), ei <= 16 * EPS * float(numpy.max(numpy.abs(phi))), dict(info, err=ei), fail_key=fk_ident)
     return got
 
 
@@ -395,7 +410,7 @@ def _drv_pulse(tier, D, nq, nt, ptsrange):
     names = [n for n, v in PULSES.items() if v[0] == D]
     nc = nq if tier == 'quick' else nt
     d = Driver('C06', 'pulse%dd' % D, bound='%s: %d random cases per function; all populations on one common grid of %d..%d points (uniform-dyadic, dyadic, dadi-like, random; '
-               'per-axis grids are in pulse_grids); proportion vectors 0, vertices, multiples of 1/8 (mixtures landing on nodes), faces (sum=1), partial zeros, random interior; '
+               'per-axis grids are in pulse_grids); proportion vectors 0, vertices, multiples of 1/8 (mixtures landing on nodes), faces (sum=1), partial zeros, random interior, vectors whose mixture at the all-ones corner rounds to 1+ulp; '
                'densities positive/signed/spike/boundary-heavy; full array vs deposition-law oracle at 64 eps max/h_min*pts; marginal over the destination unchanged at 32 eps*mass; '
                'identity at proportion 0 at 16 eps' % (', '.join(names), nc, ptsrange[0], ptsrange[1]))
     rng, nprng = d.rng, d.nprng()
@@ -414,19 +429,19 @@ def _drv_pulse(tier, D, nq, nt, ptsrange):
 
 
 def drv_pulse2d(tier):
-    return _drv_pulse(tier, 2, 60, 1500, (3, 16))
+    return _drv_pulse(tier, 2, 210, 3000, (3, 16))
 
 
 def drv_pulse3d(tier):
-    return _drv_pulse(tier, 3, 40, 1000, (3, 9))
+    return _drv_pulse(tier, 3, 105, 2100, (3, 9))
 
 
 def drv_pulse4d(tier):
-    return _drv_pulse(tier, 4, 24, 500, (3, 6))
+    return _drv_pulse(tier, 4, 63, 1260, (3, 6))
 
 
 def drv_pulse5d(tier):
-    return _drv_pulse(tier, 5, 12, 200, (3, 5))
+    return _drv_pulse(tier, 5, 28, 630, (3, 5))
 
 
 def drv_pulse_grids(tier):
@@ -434,7 +449,7 @@ def drv_pulse_grids(tier):
     deposited on, and the old destination integrated out over, the *destination's* grid."""
     import numpy
     from dadi import PhiManip
-    nc = 8 if tier == 'quick' else 120
+    nc = 21 if tier == 'quick' else 420
     d = Driver('C06', 'pulse_grids', bound='all 14 pulse functions, %d random cases each, every population on its own grid (equal lengths 3..5 in half the cases, different lengths otherwise); '
                'same contracts as pulse*d (oracle value, destination marginal conserved, identity at 0)' % nc)
     rng, nprng = d.rng, d.nprng()
@@ -452,7 +467,8 @@ def drv_pulse_grids(tier):
             suspect = (D == 4 and dest in (3, 4)) or (D == 5 and dest != 1)
             fk = hard[D] if suspect else 'pulse-grids-value'
             _one_pulse(d, PhiManip, name, phi, fs, grids, (name, ci, fkind, tuple(len(g) for g in grids)), info,
-                       fk, fk if suspect else 'pulse-grids-marginal-not-conserved', fk if suspect else 'pulse-grids-exception')
+                       fk, fk if suspect else 'pulse-grids-marginal-not-conserved', fk if suspect else 'pulse-grids-exception',
+                       fk if suspect else 'pulse-not-identity-at-0')
     return d.results()
 
 
@@ -463,10 +479,10 @@ def drv_pulse_grids(tier):
 def drv_simplex(tier):
     import numpy
     from dadi import PhiManip
-    nc = 12 if tier == 'quick' else 150
+    nc = 30 if tier == 'quick' else 600
     d = Driver('C06', 'simplex', bound='all 14 pulse functions and the constructors phi_2D_to_3D_admix, phi_3D_to_4D, phi_4D_to_5D on a 4-point grid: %d proportion vectors each with exact '
                'sum > 1 (one entry > 1; several entries each < 1; sum = 1 + 1/16 .. 3) must raise ValueError, and %d vectors in the closed simplex (vertices, faces with sum exactly 1, '
-               'zeros, random with exact rational sum <= 1) must be accepted' % (nc, nc))
+               'zeros, random with exact rational sum <= 1) must be accepted; plus %d random vectors per function with one proportion exactly 0 and sum <= 1 on a 3-point grid' % (nc, nc, 400 if tier == 'quick' else 3000))
     rng, nprng = d.rng, d.nprng()
     from fractions import Fraction as Fr
     xx = numpy.array([0.0, 0.25, 0.5, 1.0])
@@ -486,6 +502,7 @@ def drv_simplex(tier):
                 fs[rng.randrange(k)] = rng.choice([1.0625, 1.5, 2.0, 1 + 2. ** -20])
             elif mode == 1:
                 fs = [rng.choice([0.5, 0.625, 0.75, 0.875]) for _ in range(k)]          # each < 1, sum > 1
+                fs[0] = 0.625 if sum(fs) <= 1 else fs[0]
             else:
                 while True:
                     fs = [rng.randrange(0, 17) / 16. for _ in range(k)]
@@ -515,6 +532,20 @@ def drv_simplex(tier):
                 out = call(name, D, fs2)
                 return bool(numpy.all(numpy.isfinite(out))), None
             d.check((name, 'accept', tuple(fs2)), fn2, info=dict(function=name, fs=fs2, f_kind=fkind, xx=_lst(xx), phi='ones'), fail_key='valid-simplex-vector-rejected')
+        # many cheap vectors with one proportion exactly 0 (3-point grid): the guards of the pulse functions are
+        # evaluated in floating point on re-arranged proportions, so a valid vector can be refused by round-off
+        if k >= 2:
+            x3 = numpy.array([0.0, 0.5, 1.0])
+            for ci in range(400 if tier == 'quick' else 3000):
+                fs3 = [rng.random() / k for _ in range(k)]
+                fs3[rng.randrange(k)] = 0.0
+
+                def fn3(fs3=fs3):
+                    phi = numpy.ones((3,) * D)
+                    nx = D if name in PULSES else D + 1
+                    out = getattr(PhiManip, name)(phi, *(list(fs3) + [x3] * nx))
+                    return bool(numpy.all(numpy.isfinite(out))), None
+                d.check((name, 'accept0', tuple(fs3)), fn3, info=dict(function=name, fs=fs3, xx=_lst(x3), phi='ones'), fail_key='valid-simplex-vector-rejected')
     return d.results()
 
 
@@ -526,7 +557,7 @@ def drv_remove_reorder(tier):
     import numpy
     from fractions import Fraction as Fr
     from dadi import PhiManip
-    nc = 100 if tier == 'quick' else 2500
+    nc = 300 if tier == 'quick' else 5000
     d = Driver('C06', 'remove_reorder', bound='remove_pop, filter_pops, reorder_pops: %d random cases in 1..5 dimensions, axis lengths 2..7 (all different where the API allows), '
                'C- and F-ordered and strided inputs; remove_pop vs explicit trapezoid sum (exact Fractions for <=3-D, float otherwise) at 8 eps*mass; filter_pops (one common grid) '
                'vs successive marginalisation for every subset; reorder_pops: entry-by-entry axis permutation for random permutations, non-permutations raise ValueError' % nc)
